@@ -5,6 +5,7 @@ mod c01;
 mod c06;
 mod c08;
 mod c09;
+mod c10;
 mod fixtures;
 mod ingest;
 mod c18;
@@ -20,6 +21,7 @@ fn main() {
         "C06" => c06::run(Report::new(&args, "model_checking")),
         "C08" => c08::run(Report::new(&args, "model_checking")),
         "C09" => c09::run(Report::new(&args, "model_checking")),
+        "C10" => c10::run(Report::new(&args, "model_checking")),
         "C18" => c18::run(Report::new(&args, "model_checking")),
         "C24" => c24::run(Report::new(&args, "model_checking")),
         other => {
